@@ -910,11 +910,13 @@ def _run(prop, tier, res, plan, rng, root, info, pool):
                               'model': [mv['st'], mv['clause'], mv['mech']]})
     # report the SHORTEST failing lifecycles of every category
     for (fid, clause, mech), items in sorted(pending.items(), key=lambda kv: str(kv[0])):
-        items.sort(key=lambda x: (x[0], x[1]))
+        items.sort(key=lambda x: (x[0], sum(1 for a in x[2]['hist'] if a['i'] < 0), x[1]))
         if fid is not None:
             kf = match_finding(mech)
-            res.known_finding(fid, kf['what'] + ' (same mechanism through DiskCacheDataset) '
-                              'e.g. ' + items[0][1])
+            res.known_finding(fid, kf['what']
+                              + ('' if kf['property'] == prop
+                                 else ' (same mechanism through DiskCacheDataset)')
+                              + ' e.g. ' + items[0][1])
         else:
             for _, what, rp in items[:3]:
                 if len(res.violations) < 25:
